@@ -60,6 +60,7 @@ type FuncSpec struct {
 	Fresh      bool // result is freshly allocated
 	Opaque     bool // do not verify the body (listed as assumption)
 	BV         bool
+	Modes map[string]bool // proof-search options of this function's VC (`mode <name>`)
 	Unroll     map[int]int
 	MayPanic   bool // explicit panics are not obligations here (documented rejection)
 	Lockset    string // `lockset <field>`: syntactic check that the method runs under receiver.<field> (see lockset.go)
@@ -480,6 +481,11 @@ func (cs *Contracts) loadFile(path string) error {
 		case "mode":
 			if cur != nil && rest == "bv64" {
 				cur.BV = true
+			} else if cur != nil {
+				if cur.Modes == nil {
+					cur.Modes = map[string]bool{}
+				}
+				cur.Modes[strings.TrimSpace(rest)] = true // e.g. `mode append-back` (ext_kviter.go)
 			}
 		case "unroll":
 			f := strings.Fields(rest)
